@@ -460,3 +460,10 @@ V("rw-all-perimeter-temp", "rewrite", ALLP, P + "polygon.py",
   "        if value > 0:\n            scale = value / self.perimeter\n            self._rescale(scale)",
   "        if value > 0:\n            current = self.perimeter\n            self._rescale(value / current)")
 V("rw-all-docstring-only", "rewrite", ALLP, P + "ellipse.py", '"""float: The eccentricity.', '"""float: The (first) eccentricity.')
+
+# ------------------------------------------------------------------------------------------ C03 memoisation
+V("c03-cached-surface-area", "fault", "C03", P + "polyhedron.py",
+  "    @property\n    def surface_area(self):\n        \"\"\"float: Get the surface area.\"\"\"\n        return np.sum(self.get_face_area())",
+  "    @cached_property\n    def _surface_area_cache(self):\n        return np.sum(self.get_face_area())\n\n    @property\n    def surface_area(self):\n        \"\"\"float: Get the surface area.\"\"\"\n        return self._surface_area_cache", rule="COH")
+V("c03-lru-cache-method", "fault", "C03", P + "polyhedron.py",
+  "    def get_dihedral(self, a, b):", "    @__import__('functools').lru_cache(maxsize=None)\n    def get_dihedral(self, a, b):", rule="MEMO-1")
